@@ -33,7 +33,22 @@
 using std::swap;
 using std::vector;
 
+#ifdef TINS_VERIF_HOOKS
+#include <atomic>
+#endif // TINS_VERIF_HOOKS
+
 namespace Tins {
+
+#ifdef TINS_VERIF_HOOKS
+namespace VerifHooks {
+    serialize_monitor_type serialize_monitor = 0;
+    static std::atomic<long> live_pdu_count(0);
+    long live_pdus() { return live_pdu_count.load(); }
+    Census::Census() { ++live_pdu_count; }
+    Census::Census(const Census&) { ++live_pdu_count; }
+    Census::~Census() { --live_pdu_count; }
+} // VerifHooks
+#endif // TINS_VERIF_HOOKS
 
 PDU::metadata::metadata() 
 : header_size(0), current_pdu_type(PDU::UNKNOWN), next_pdu_type(PDU::UNKNOWN) {
@@ -142,7 +157,29 @@ void PDU::serialize(uint8_t* buffer, uint32_t total_sz) {
     if (inner_pdu_) {
         inner_pdu_->serialize(buffer + header_size(), total_sz - sz);
     }
+    #ifdef TINS_VERIF_HOOKS
+    const uint32_t verif_inner_begin = header_size();
+    vector<uint8_t> verif_snapshot;
+    if (VerifHooks::serialize_monitor) {
+        if (total_sz < sz) {
+            VerifHooks::serialize_monitor(pdu_type(), total_sz, 1);
+        }
+        else if (inner_pdu_) {
+            verif_snapshot.assign(buffer + verif_inner_begin, buffer + (total_sz - trailer_size()));
+        }
+    }
+    #endif // TINS_VERIF_HOOKS
     write_serialization(buffer, total_sz);
+    #ifdef TINS_VERIF_HOOKS
+    if (VerifHooks::serialize_monitor) {
+        for (uint32_t i = 0; i < verif_snapshot.size(); ++i) {
+            if (buffer[verif_inner_begin + i] != verif_snapshot[i]) {
+                VerifHooks::serialize_monitor(pdu_type(), verif_inner_begin + i, 0);
+                break;
+            }
+        }
+    }
+    #endif // TINS_VERIF_HOOKS
 }
 
 void PDU::parent_pdu(PDU* parent) {
